@@ -3,6 +3,7 @@ from sa.paths import gate_check, must_precede, Cfg, loops
 from sa.flow import origin_chain, field_accesses, value_sources, all_defs
 from sa.match import holds, const_value, comparison, has_value
 from sa.build import AnalysisBroken
+from sa.prog import int_type
 from props.common import rx, is_now
 
 UNITS = ['src/dht/KademliaTable.cpp']
@@ -120,7 +121,8 @@ def run(ck):
                 ok = True
     ck.ob('C07.index', 'C07.index/formula', ok, bi.loc(), 'the index is kIdBits - leading_zeros - 1 (in [0, kIdBits) given the guard)')
     # all_zero is cleared only where a differing byte was found
-    defs = [d for d in all_defs(bi, [bi.nodes[i]['d'] for i in bi.walk() if bi.nodes[i].get('n') == 'all_zero'][0])]
+    az = [bi.nodes[i]['d'] for i in bi.walk() if bi.nodes[i].get('n') == 'all_zero' and bi.nodes[i]['k'] == 'VarDecl']
+    defs = [d for d in all_defs(bi, az[0])] if az else []
     ok = len(defs) == 2 and const_value(bi, defs[0][1]) == 1 and const_value(bi, defs[1][1]) == 0
     if ok:
         def diff_nonzero(fact):
@@ -131,6 +133,22 @@ def run(ck):
     ck.ob('C07.index', 'C07.index/own-id-rejected', ok, bi.loc(),
           'all_zero starts true and is cleared only when a byte of self_id ^ peer differs (own id => nullopt => never inserted)')
 
+    # leading zeros of the first differing byte: countl_zero counts in the width of its operand, so a byte widened to W bits needs W - 8 taken off
+    clz = [i for i in bi.walk() if (bi.nodes[i].get('callee') or '') == 'std::countl_zero']
+    okc = bool(clz)
+    for c_ in clz:
+        at = (bi.nodes[bi.strip(bi.call_args(c_)[0], casts=False)].get('t') or '').replace('const ', '')
+        bits = (int_type(at) or (None, None))[0]
+        par = bi.parent(c_)
+        while par is not None and bi.nodes[par]['k'] in ('ParenExpr', 'ImplicitCastExpr'):
+            par = bi.parent(par)
+        corr = None
+        if par is not None and bi.nodes[par]['k'] == 'BinaryOperator' and bi.nodes[par].get('op') == '-':
+            corr = const_value(bi, bi.kids(par)[1])
+        # the operand must derive from an 8-bit value (the xor byte)
+        okc = okc and bits in (8, 16, 32, 64) and (corr or 0) == bits - 8
+    ck.ob('C07.index', 'C07.index/byte-leading-zeros', okc, bi.loc(clz[0]) if clz else bi.loc(),
+          'the leading zeros of the differing byte are countl_zero(widened byte) minus (width - 8)')
     cp = P.fn(KT + 'closest_peers')
     ck.touch(cp)
     cpush = [c for c in cp.calls(rx(r'vector<.*Candidate.*::(push_back|emplace_back)$'))]
